@@ -67,7 +67,11 @@ def configs(tier):
     for m in ('get', ['batch', 0], ['bbatch', 2], 'iter'):
       two_t.append(('queue', dict(prods=[3], cap=cap, cons=[m])))
   rest3 = [c for c in three if c not in three_q]
-  return [('4 threads, delay bound 2', 2, four),
+  quick_groups = [('2 threads, preemption bound 2', 2, deep),
+                  ('2 threads (remaining consumer modes), preemption bound 1', 1, shallow),
+                  ('3 threads, preemption bound 1', 1, three_q),
+                  ('4 threads, delay bound 1', 1, four)]
+  return quick_groups + [('4 threads, delay bound 2', 2, four),
           ('3 threads (remaining configurations), preemption bound 1', 1, rest3),
           ('2 threads (remaining consumer modes) and 3 items, preemption bound 2',
            2, shallow + two_t),
